@@ -23,6 +23,9 @@ CLAIMED.update({
  "C18": ("Lean 4 theorems over a code-point/byte-offset model of the string builtins (length, index, slice, substr, findSubstr bookkeeping, split/splitLimit/splitLimitR, join, strip, replace, char/codepoint, reverse, map/flatMap, field padding), tied to stdlib.rs/expr.rs by generated mixed-width strings through implementation and model and by Python str as independent oracle.",
          "Lean kernel + standard axioms; Rust std str primitives modelled from their documented contracts; strings < usize::MAX chars.",
          "Lean 4 proof + correspondence + Python reference oracle", "DESIGN.md §5 C18"),
+ "C08": ("Lean 4 theorems: the equality and ordering state machines of the evaluator (explicit state/value/bool/ordering stacks, early exits) refine the declarative structural equality and lexicographic comparison with balanced stacks; on the specifications: reflexivity, symmetry, transitivity, != is the negation, == iff same JSON value, compare swap/transitivity/trichotomy, derived <= >= __compare __compare_array, unordered kinds are errors, UTF-8 byte order = code-point order; tied to eval/mod.rs by pairs/triples of generated values through all nine operations on implementation and model, with Python comparison of decoded values as independent oracle.",
+         "Lean kernel + standard axioms; model numbers are integers (fractions checked on the implementation only); compared objects have no asserts/self/super; a thunk is a value or a failure.",
+         "Lean 4 proof (machine refinement + order laws) + correspondence + Python reference oracle", "DESIGN.md §5 C08"),
 })
 NOT_YET = "check not built yet in this round (no machinery committed for it)"
 
